@@ -125,3 +125,91 @@ def stmt_index(stmts, node):
             if n is node:
                 return i
     return -1
+
+
+def truthiness_uses(fn_node, name):
+    """nodes where `name` itself is used for its truth value: `if name`, `not name`, `name or X`, `name and X`, `X if name else Y`, `while name`."""
+    out = []
+    for n in body_nodes(fn_node):
+        tests = []
+        if isinstance(n, (ast.If, ast.While, ast.IfExp)):
+            tests.append(n.test)
+        if isinstance(n, ast.Assert):
+            tests.append(n.test)
+        if isinstance(n, ast.BoolOp):
+            tests.extend(n.values[:-1] if isinstance(n.op, ast.Or) else n.values)
+        if isinstance(n, ast.UnaryOp) and isinstance(n.op, ast.Not):
+            tests.append(n.operand)
+        if isinstance(n, ast.comprehension):
+            tests.extend(n.ifs)
+        for t in tests:
+            for c in (conjuncts(t) if not isinstance(t, ast.BoolOp) or isinstance(t.op, ast.And) else disjuncts(t)):
+                if isinstance(c, ast.Name) and c.id == name:
+                    out.append(n)
+                if isinstance(c, ast.UnaryOp) and isinstance(c.op, ast.Not) and isinstance(c.operand, ast.Name) and c.operand.id == name:
+                    out.append(n)
+    # de-duplicate preserving order
+    seen, res = set(), []
+    for n in out:
+        if id(n) not in seen:
+            seen.add(id(n))
+            res.append(n)
+    return res
+
+
+def none_not_falsy(ctx, fn, names, why):
+    """NONE-VS-EMPTY: for these names an empty/zero value is meaningful and differs from "not given": absence must be tested with
+    `is None` (or `in kwargs`), never through truthiness."""
+    pm = parent_map(fn.node)
+    for nm in names:
+        ctx.count(1, '%s:%s' % (fn.qual, nm))
+        for n in truthiness_uses(fn.node, nm):
+            st = enclosing_stmt(pm, n) if not isinstance(n, ast.stmt) else n
+            ctx.fail(fn, st, '`%s` is tested for truthiness in %s (`%s`): %s' % (nm, fn.qual, U(n.test if hasattr(n, 'test') else n)[:60], why), stmt=(n.test if hasattr(n, 'test') else n))
+
+
+def single_definition(ctx, fn, name, what):
+    """ORDER-PRESERVING: `name` is bound exactly once in fn and never re-ordered in place (sort/reverse) - the order in which its elements
+    were collected (argument order) is the order its consumers see."""
+    binds = [n for n in body_nodes(fn.node) if isinstance(n, (ast.Assign, ast.AugAssign)) and name in [U(t) for t in (n.targets if isinstance(n, ast.Assign) else [n.target])]]
+    ctx.count(1, '%s:%s' % (fn.qual, name))
+    if len(binds) > 1:
+        for b in binds[1:]:
+            ctx.fail(fn, b, '`%s` is rebound (`%s`) after it was collected: %s' % (name, U(b)[:80], what))
+    for c in calls_in(fn.node):
+        if isinstance(c.func, ast.Attribute) and U(c.func.value) == name and c.func.attr in ('sort', 'reverse'):
+            ctx.fail(fn, c, '`%s` is re-ordered in place: %s' % (name, what))
+    return binds
+
+
+
+def init_forwarding(ctx, cls):
+    """every keyword handed by <cls>.__init__ to the base initialiser must be the parameter itself (or a documented normalisation);
+    `param or X` silently replaces meaningful falsy values (0, 0.0, '', [])."""
+    mod, node = ctx.repo.classes[cls]
+    init = ctx.repo.funcs.get((mod, cls, '__init__'))
+    if init is None:
+        return
+    from ..core import Fn
+    f = Fn(ctx.repo, mod, cls, '__init__', init)
+    sup = [x for x in ast.walk(init) if isinstance(x, ast.Call) and isinstance(x.func, ast.Attribute) and x.func.attr == '__init__' and isinstance(x.func.value, ast.Call) and call_name(x.func.value) == 'super']
+    if not sup:
+        return
+    for k in sup[0].keywords:
+        if k.arg is None:
+            continue
+        ctx.count(1, '%s.%s' % (cls, k.arg))
+        v = k.value
+        if isinstance(v, ast.Name) and v.id == k.arg:
+            continue
+        if isinstance(v, ast.Constant) and v.value is None:
+            continue
+        if isinstance(v, ast.Call) and call_name(v) in ('as_tuple', 'as_list') and len(v.args) == 1 and U(v.args[0]) == k.arg:
+            continue
+        if isinstance(v, ast.BoolOp) and isinstance(v.op, ast.Or) and U(v.values[0]) == k.arg:
+            ctx.fail(f, sup[0], '%s.__init__ stores `%s = %s`: a falsy but meaningful value of %s (0, 0.0, empty) is silently replaced' % (cls, k.arg, U(v), k.arg), stmt=v)
+            continue
+        if isinstance(v, ast.Name) and v.id in f.params:
+            ctx.fail(f, sup[0], '%s.__init__ stores `%s = %s` (another parameter)' % (cls, k.arg, v.id), stmt=v)
+            continue
+        raise AnalysisError('unrecognised value for %s in %s.__init__: %s' % (k.arg, cls, U(v)))
